@@ -76,6 +76,14 @@ Definition boundary_edges faces edges : list Z :=
 Definition cut0 (edges : list (Z * Z)) (evisited : list Z) : list Z :=
   filter (fun e => cut0_keep (memZ e evisited)) (zrange (zlen edges)).
 
+(* ------------------------------------------------------------------ one relaxation of the dual Dijkstra
+   (dist, path) of the neighbour iF2 when the popped face iF (distance cur) looks across edge e of length d.
+   Distances are floats in mouette; only their order matters here, Z stands for any ordered additive domain. The
+   tree itself is not recomputed by the model (see header): this is the step whose comparison decides whether the
+   parent edge of an already settled face can be overwritten. *)
+Definition relax_step (relax : Z -> Z -> bool) (old : Z * option Z) (cur d e : Z) : Z * option Z :=
+  if relax (fst old) (cur + d) then (cur + d, Some e) else old.
+
 (* ------------------------------------------------------------------ the cut graph: cut_adj and _prune_edge_tree *)
 Definition touches (edges : list (Z * Z)) (e v : Z) : bool :=
   (fst (ends edges e) =? v) || (snd (ends edges e) =? v).
